@@ -77,7 +77,10 @@ Alive(e, now) == ~e.soft /\ (e.exp = NoExp \/ now <= e.exp)     \* StoredValue::
 Present(S, k) == k \in DOMAIN S.store                           \* Store::is_present: PHYSICAL presence
 Readable(S, k) == Present(S, k) /\ Alive(S.store[k], S.now)
 ShardOf(S, t) == t % S.cfg.shards
-WF(S, k, hasTtl) == S.cfg.wf_base + (k % S.cfg.wf_mod) + (IF hasTtl THEN S.cfg.wf_ttl ELSE 0)
+\* the configured weight calculation function: the harness' table, or the crate's default (Calculation::perform on u64 keys and
+\* values: 8 + 8 + size_of WeightedKey<u64> = 40, plus the TTL ticker entry size when a time to live is given)
+WF(S, k, hasTtl) == IF S.cfg.dwf THEN 40 + (IF hasTtl THEN TtlEntrySize ELSE 0)
+                    ELSE S.cfg.wf_base + (k % S.cfg.wf_mod) + (IF hasTtl THEN S.cfg.wf_ttl ELSE 0)
 IsCaller(a) == a \notin {"worker", "sweeper", "consumer", "env"}
 WorkerAlive(S) == S.pc["worker"] \notin {"DEAD", "END"}
 ConsumerAlive(S) == S.pc["consumer"] \notin {"DEAD", "END"}
